@@ -90,7 +90,8 @@ fn triple_case<P: G>(cfg: Cfg, seeded: bool, tier: Tier) -> Box<dyn Case> {
             let obs = verify_observed_one(&built.statement, &proof, &ctx, mode);
             res.executions += 1;
             if !obs.is_ok() {
-                res.machinery_error(format!("base triple not accepted: {}", obs.describe()));
+                // nothing to alter: an honest triple that is not accepted is C01's finding, not this property's
+                res.outcome = "base-triple-not-accepted(skipped)".into();
                 return res;
             }
         }
@@ -342,6 +343,7 @@ pub fn run(rep: &mut Report) {
         }
     }
     rep.explore("C05", cases);
+    rep.expect_outcome("explored");
     rep.expect_sub_outcome("verify:Err:VerificationFailed");
     rep.expect_sub_outcome("allowed-alteration:Ok");
 }
